@@ -610,6 +610,11 @@ func (e *ConstEval) transfer(fn *ssa.Function, res *CEResult, v ssa.Value) CVal 
 			}
 			return CVal{K: CStruct, Tup: out}
 		}
+		if x.Op == token.MUL {
+			if v, ok := tableLoad(res, x.X); ok {
+				return v
+			}
+		}
 		if x.Op == token.MUL || x.Op == token.ARROW || a.K != CConst {
 			return Top
 		}
@@ -717,6 +722,9 @@ func (e *ConstEval) transfer(fn *ssa.Function, res *CEResult, v ssa.Value) CVal 
 		s, i := res.Of(x.X), res.Of(x.Index)
 		if s.K == CBot || i.K == CBot {
 			return Bot
+		}
+		if v, ok := tableLookup(res, x); ok {
+			return v
 		}
 		if s.K == CConst && s.C.Kind() == constant.String {
 			if k, ok := i.Int(); ok {
